@@ -27,6 +27,7 @@ func effectFree(name string) bool {
 		"(*github.com/scionproto/scion/router.Metrics", "(github.com/scionproto/scion/router.trafficMetrics",
 		"github.com/scionproto/scion/pkg/private/util.", "time.Sleep", "(*time.Timer).", "(*time.Ticker).",
 		"(*github.com/gopacket/gopacket/layers.BFD).Length",
+		"github.com/scionproto/scion/private/underlay/conn.ResolveAddrPort",
 		"(context.Context).", "context.", "time.NewTimer", "time.NewTicker", "time.After", "time.AfterFunc",
 		"net/netip.", "(net/netip.Addr).", "(net/netip.AddrPort).", "(net/netip.Prefix).",
 		"(net.IP).", "net.ParseIP", "(*net.UDPAddr).String", "(*net.IPNet).",
